@@ -18,6 +18,10 @@ for d in sorted(glob.glob(os.path.join(V, "seeded", "*", ""))):
         break
     rows.append((m["id"], m.get("breaks_property"), m.get("needs_to_manifest", "").replace("|", "/"), ", ".join(det) or "**none**", first))
 
+tail = ""
+if "### 9.6" in static:
+    i = static.index("### 9.6")
+    static, tail = static[:i], static[i:]
 out = [static.rstrip(), "", "### 9.4 Independently written changes (`seeded/<id>/`)", "",
        "Each was written by a fresh sub-agent that saw only the property text and a scratch worktree, and was kept only after "
        "`tools/validate_seeded.sh` confirmed in a scratch worktree that it applies, that the unedited suite passes with it, and that its "
@@ -37,7 +41,7 @@ try:
             out.append("| %s | %s |" % (mm.group(1), mm.group(2).replace(",", ", ")))
 except FileNotFoundError:
     pass
-text = "\n".join(out) + "\n"
+text = "\n".join(out) + "\n" + ("\n" + tail.rstrip() + "\n" if tail else "")
 p = os.path.join(V, "DESIGN.md")
 s = open(p).read()
 a = s.index("## 9. Evidence that the checks work")
